@@ -431,6 +431,16 @@ func termCases(opts Opts) []TCase {
 			add(TCase{Routine: "linesearch", Family: ob, N: 1, Obj: ob, Cap: cp})
 		}
 	}
+	// backtracking loops driven by a constraints callback (round 2): never satisfied / satisfied only for
+	// tiny steps / satisfied at the start point only.  newton's `for { x2 = x1 - t1; if Vequals(x1, x2) {
+	// return error }; ...; t1 *= c }` must end by the Vequals exit (step underflow, ~1100 halvings).
+	for _, r := range []string{"newton-root", "newton-min", "newton-crit", "bfgs", "rprop", "adam"} {
+		for _, fam := range []string{"constraints-never", "constraints-tiny-step", "constraints-x0-only", "constraints-x0-point"} {
+			for _, cp := range []int{1, 5} {
+				add(TCase{Routine: r, Family: fam, N: 2, Obj: "quadratic", Cap: cp, P: []float64{0.1, 1.2, 0.5}})
+			}
+		}
+	}
 	add(TCase{Routine: "linesearch", Family: "constraints-never", N: 1, Obj: "quadratic", Cap: 20, P: []float64{1}})
 	add(TCase{Routine: "linesearch", Family: "constraints-small", N: 1, Obj: "quadratic", Cap: 20, P: []float64{2}})
 	for _, cp := range []int{0, 1, 7, 1000} {
@@ -450,6 +460,7 @@ func termCases(opts Opts) []TCase {
 		add(TCase{Routine: "special", Family: fn, N: 1, Cap: -1, Obj: "nan"})
 		add(TCase{Routine: "special", Family: fn, N: 1, Cap: -1, Obj: "inf"})
 	}
+	specialNFCases(add)
 	for _, st := range []int{0, 1, 10} {
 		add(TCase{Routine: "blahut", Family: "uniform", N: 3, Cap: st})
 		add(TCase{Routine: "blahut", Family: "zero-channel", N: 3, Cap: st})
@@ -563,6 +574,32 @@ func runTermCase(c TCase) (res TRes) {
 		}
 		return v
 	}
+	// constraints callback for the "constraints-*" families; the start point is x0()
+	ccalls := 0
+	constr := func(x ad.ConstVector) bool {
+		ccalls++
+		switch c.Family {
+		case "constraints-never":
+			return false
+		case "constraints-x0-only":
+			return ccalls == 1
+		case "constraints-x0-point": // only the start point itself is admissible: every loop must end by step underflow
+			for i := 0; i < x.Dim(); i++ {
+				if x.ConstAt(i).GetFloat64() != 1.5-float64(i) {
+					return false
+				}
+			}
+			return true
+		case "constraints-tiny-step":
+			d := 0.0
+			for i := 0; i < x.Dim(); i++ {
+				d += math.Abs(x.ConstAt(i).GetFloat64() - (1.5 - float64(i)))
+			}
+			return d < 1e-9
+		}
+		return true
+	}
+	hasC := len(c.Family) > 12 && c.Family[:12] == "constraints-"
 	switch c.Routine {
 	case "qr":
 		_, _, err = qrAlgorithm.Run(mat(), qrAlgorithm.ComputeU{Value: true})
@@ -587,17 +624,29 @@ func runTermCase(c TCase) (res TRes) {
 	case "rprop":
 		f := objective(c.Obj, cnt)
 		h := rprop.Hook{Value: func([]float64, []float64, ad.ConstVector, ad.ConstScalar) bool { cnt.iters++; return false }}
-		_, err = rprop.Run(f, x0(), c.P[0], []float64{c.P[1], c.P[2]}, h, rprop.MaxIterations{Value: c.Cap})
+		args := []interface{}{h, rprop.MaxIterations{Value: c.Cap}}
+		if hasC {
+			args = append(args, rprop.Constraints{Value: func(x ad.Vector) bool { return constr(x) }})
+		}
+		_, err = rprop.Run(f, x0(), c.P[0], []float64{c.P[1], c.P[2]}, args...)
 		res.Iters, res.Evals = cnt.iters, cnt.evals
 	case "bfgs":
 		f := objective(c.Obj, cnt)
 		h := bfgs.Hook{Value: func(x, g ad.ConstVector, y ad.ConstScalar) bool { cnt.iters++; return false }}
-		_, err = bfgs.Run(bfgs.Objective(f), x0(), h, bfgs.MaxIterations{Value: c.Cap})
+		args := []interface{}{h, bfgs.MaxIterations{Value: c.Cap}}
+		if hasC {
+			args = append(args, bfgs.Constraints{Value: func(x ad.Vector) bool { return constr(x) }})
+		}
+		_, err = bfgs.Run(bfgs.Objective(f), x0(), args...)
 		res.Iters, res.Evals = cnt.iters, cnt.evals
 	case "adam":
 		f := objective(c.Obj, cnt)
 		h := adam.Hook{Value: func(ad.ConstVector, ad.ConstVector, ad.ConstScalar) bool { cnt.iters++; return false }}
-		_, err = adam.Run(f, x0(), h, adam.MaxIterations{Value: c.Cap})
+		args := []interface{}{h, adam.MaxIterations{Value: c.Cap}}
+		if hasC {
+			args = append(args, adam.Constraints{Value: func(x ad.Vector) bool { return constr(x) }})
+		}
+		_, err = adam.Run(f, x0(), args...)
 		res.Iters, res.Evals = cnt.iters, cnt.evals
 	case "newton-root":
 		f := objective(c.Obj, cnt)
@@ -614,7 +663,25 @@ func runTermCase(c TCase) (res TRes) {
 			return r, nil
 		}
 		h := newton.HookRoot{Value: func(ad.ConstVector, ad.ConstMatrix, ad.ConstVector) bool { cnt.iters++; return false }}
-		_, err = newton.RunRoot(g, x0(), h, newton.MaxIterations{Value: c.Cap})
+		args := []interface{}{h, newton.MaxIterations{Value: c.Cap}}
+		if hasC {
+			args = append(args, newton.Constraints{Value: func(x ad.Vector) bool { return constr(x) }})
+		}
+		_, err = newton.RunRoot(g, x0(), args...)
+		res.Iters, res.Evals = cnt.iters, cnt.evals
+	case "newton-min", "newton-crit":
+		f := objective(c.Obj, cnt)
+		args := []interface{}{newton.MaxIterations{Value: c.Cap}}
+		if hasC {
+			args = append(args, newton.Constraints{Value: func(x ad.Vector) bool { return constr(x) }})
+		}
+		if c.Routine == "newton-min" {
+			args = append(args, newton.HookMin{Value: func(ad.ConstVector, ad.ConstVector, ad.ConstMatrix, ad.ConstScalar) bool { cnt.iters++; return false }})
+			_, err = newton.RunMin(f, x0(), args...)
+		} else {
+			args = append(args, newton.HookCrit{Value: func(ad.ConstVector, ad.ConstMatrix, ad.ConstVector) bool { cnt.iters++; return false }})
+			_, err = newton.RunCrit(f, x0(), args...)
+		}
 		res.Iters, res.Evals = cnt.iters, cnt.evals
 	case "gd":
 		f := objective(c.Obj, cnt)
@@ -681,6 +748,8 @@ func runTermCase(c TCase) (res TRes) {
 		case "Mlgamma":
 			special.Mlgamma(x, 3)
 		}
+	case "specialnf":
+		runSpecialNF(c, cnt)
 	case "blahut":
 		ch := ad.NullDenseFloat64Matrix(c.N, c.N)
 		if c.Family == "uniform" {
@@ -765,7 +834,7 @@ func runTermParent(opts Opts, cases []TCase, outName string) {
 		hist["routine:"+r.Case.Routine]++
 		hist["outcome:"+r.Outcome]++
 	}
-	ob, _ := json.MarshalIndent(map[string]interface{}{"results": results, "histogram": hist}, "", " ")
+	ob, _ := json.MarshalIndent(map[string]interface{}{"results": results, "histogram": hist, "special_covered": specialCovered()}, "", " ")
 	os.WriteFile(filepath.Join(opts.Out, outName+".json"), ob, 0644)
 }
 
